@@ -13,7 +13,7 @@ export GOFLAGS=-mod=mod GOPROXY=off GOSUMDB=off GOTOOLCHAIN=local
     git -C $W/repo format-patch -q -o $W/out/repo-patches $(cat $W/base_repo)..HEAD
   fi
   if ls $W/out/repo-patches/*.patch >/dev/null 2>&1; then
-    git -C /repo am $W/out/repo-patches/*.patch || { echo "GIT-AM-FAILED"; git -C /repo am --abort; }
+    git -C /repo am -3 $W/out/repo-patches/*.patch || { echo "GIT-AM-FAILED"; git -C /repo am --abort; }
   else echo "(none)"; fi
   git -C /repo log --oneline | head -8
   echo "== suite"; lib/repo_test.sh && echo SUITE-OK || echo SUITE-FAILED
